@@ -114,6 +114,8 @@ pub struct Model {
     pub faults: BTreeMap<String, u64>,
     /// the faults of the current step, in order
     pub step_faults: Vec<String>,
+    /// denomination metadata set through the bank keeper's administration function (name per denomination)
+    pub denom_meta: BTreeMap<String, String>,
     /// out of band: every address ever observed for a (checksum, creator, salt) triple, including in
     /// instantiations that were rolled back afterwards
     pub salted_seen: BTreeMap<(String, String, Vec<u8>), String>,
@@ -212,6 +214,7 @@ impl Model {
             probes: BTreeMap::new(),
             faults: BTreeMap::new(),
             step_faults: vec![],
+            denom_meta: BTreeMap::new(),
             addr_fallback: None,
             addr_validator: None,
             salted_seen: BTreeMap::new(),
@@ -282,6 +285,12 @@ impl Model {
         } else {
             MResp::default()
         }
+    }
+
+    /// Records a call that is never subject to the fault plan.
+    fn record_call(&mut self, kind: &str, payload: String) {
+        self.module_calls.push(ModCall { kind: kind.to_string(), sender: String::new(), payload });
+        *self.call_counts.entry(kind.to_string()).or_insert(0) += 1;
     }
 
     fn module_call(&mut self, kind: &str, sender: &str, payload: String) -> Result<u32, ()> {
@@ -544,6 +553,9 @@ impl Model {
                     if addr.to_lowercase() != addr && self.s.contracts.contains_key(&addr.to_lowercase()) {
                         self.probe("contract_at_case_twin_address");
                     }
+                    if addr.len() > 241 {
+                        self.probe("contract_at_address_of_242_bytes_or_more");
+                    }
                 }
                 Ok(r)
             }
@@ -738,14 +750,17 @@ impl Model {
         match q {
             QueryOp::Balance { who, denom } => {
                 let a = names.target(who, self_addr);
+                let d = names.denom(*denom);
+                // the configured bank module is asked whatever the address looks like
+                self.record_call("bank.query", format!("balance:{}:{}", a, d));
                 if !self.valid_addr(&a) {
                     return "ERR".into();
                 }
-                let d = names.denom(*denom);
                 format!("{}{}", self.s.balance(&a, &d), d)
             }
             QueryOp::AllBalances { who } => {
                 let a = names.target(who, self_addr);
+                self.record_call("bank.query", format!("all:{}", a));
                 if !self.valid_addr(&a) {
                     return "ERR".into();
                 }
@@ -753,7 +768,17 @@ impl Model {
             }
             QueryOp::Supply { denom } => {
                 let d = names.denom(*denom);
+                self.record_call("bank.query", format!("supply:{}", d));
                 format!("{}{}", self.s.supply(&d), d)
+            }
+            QueryOp::DenomMeta { denom } => {
+                let d = names.denom(*denom);
+                self.record_call("bank.query", format!("meta:{}", d));
+                self.denom_meta.get(&d).cloned().unwrap_or_default()
+            }
+            QueryOp::AllDenomMeta => {
+                self.record_call("bank.query", "allmeta".to_string());
+                self.denom_meta.values().cloned().collect::<Vec<_>>().join(",")
             }
             QueryOp::Raw { contract, key } => {
                 let a = names.target(contract, self_addr);
